@@ -155,6 +155,9 @@ def make_kernel(kernel, d, bkind, beta, nu=None, wraps=1, skip_ratio=False, K=1,
         else:
             zrev = None  # decided below (+-z)
         cands = [zrev] if zrev is not None else [[-v for v in z], list(z)]
+        if zrev is None and d == 2 and bkind == "reflective":
+            # a move that is reflected once on coordinate 0 is undone by the noise -R*delta, R = diag(-1, 1):  z' = -L^-1 R L z
+            cands.append([z[0], -z[1] - (L[1][0] * z[0] * 2) / L[1][1]])
         landed = []
         rev_info = []
         if CONFIG["floor_range"] is not None:
@@ -207,6 +210,8 @@ def make_kernel(kernel, d, bkind, beta, nu=None, wraps=1, skip_ratio=False, K=1,
     def replay(m, label, v):
         if K > 1:
             return replay_multimode(kernel, float(beta), nu, K, mode, m, label)
+        if kernel == "rwm" and d == 2 and bkind == "reflective":
+            return replay_rwm_reflective_2d(m, label)
         return replay_kernel(kernel, d, bkind, float(beta), nu, m, label)
 
     name = f"{kernel}-{bkind}-d{d}-beta{beta}" + (f"-nu{int(nu)}" if skip_ratio else "") + (f"-K{K}mode{mode}" if K > 1 else "")
@@ -512,6 +517,51 @@ def replay_composition(kernel, K, assignment, beta, nu, m, label):
             "payload": {"scenario": ("solver model" if i == 0 else f"family member {i}"), "inputs": sc, "max_abs_difference": err},
             "what": f"{kernel}, K={K}, walker on mode {assignment}: a run of two iterations is not the composition of two one-iteration runs with the same draws "
                     f"({txt}; max difference {err:.3g}) ({label})"}
+
+
+def replay_rwm_reflective_2d(m, label):
+    """exact check of proposal symmetry on the folded space: coordinate 0 reflective on [0,1], coordinate 1 free; the density of
+    proposing v from u is the sum of the Gaussian noise density over all mirror images of v. RWM accepts with min(1, pi(v)/pi(u)),
+    which is only correct if q(u -> v) == q(v -> u)."""
+    vals = {k: float(x) for k, x in m.items() if not k.startswith("obs:") and not isinstance(x, (bool, str))}
+    cands = []
+    try:
+        cands.append((vals["L0_00"], vals["L0_10"], vals["L0_11"], vals["sigma"], vals["u0"], vals["u1"], vals["z0"], vals["z1"]))
+    except Exception:
+        pass
+    cands += [(0.3, 0.25, 0.2, 0.8, 0.1, 0.5, -1.2, 0.7), (0.5, -0.4, 0.3, 0.5, 0.9, 0.6, 0.9, -0.4)]
+    worst = None
+    for (a, b, e, sg, u0, u1, z0, z1) in cands:
+        if not (a > 0 and e > 0 and 0 < sg):
+            continue
+        L = np.array([[a, 0.0], [b, e]])
+        S = sg * sg * (L @ L.T)
+        Si = np.linalg.inv(S)
+        u = np.array([u0, u1])
+        y = u + sg * (L @ np.array([z0, z1]))
+        v = np.asarray(mcmc.apply_boundary_conditions(y.copy(), None, np.array([0])), dtype=float)  # the real fold
+        if not (0.0 <= v[1] <= 1.0 and 0.0 <= u[1] <= 1.0 and 0.0 <= u[0] <= 1.0) or abs(y[0] - v[0]) < 1e-15:
+            continue  # only moves between points of the cube that were actually reflected
+
+        def q(p, t):
+            tot = 0.0
+            for k in range(-6, 7):
+                for sgn in (1.0, -1.0):
+                    img = np.array([sgn * t[0] + 2 * k, t[1]])
+                    dlt = img - p
+                    tot += math.exp(-0.5 * dlt @ Si @ dlt)
+            return tot
+        f, r = q(u, v), q(v, u)
+        rel = abs(f - r) / max(f, r, 1e-300)
+        if worst is None or rel > worst[0]:
+            worst = (rel, L.tolist(), sg, u.tolist(), v.tolist(), f, r)
+    if worst is None:
+        return {"reproduced": False, "what": "model incomplete"}
+    rel, L, sg, u, v, f, r = worst
+    return {"reproduced": bool(rel > 1e-6 and abs(L[1][0]) > 1e-12), "signature": "rwm:reflective:correlated-proposal-not-symmetric-under-the-fold",
+            "payload": {"chol_factor": L, "sigma": sg, "u": u, "v": v, "q(u->v)": f, "q(v->u)": r},
+            "what": f"RWM with coordinate 0 reflective and a correlated scale matrix (Cholesky factor {L}, sigma {sg}): the folded proposal density from {u} to {v} "
+                    f"is {f:.6g} (unnormalised, summed over mirror images) but {r:.6g} in the opposite direction; the acceptance min(1, pi'/pi) assumes they are equal ({label})"}
 
 
 def replay_multimode(kernel, beta, nu, K, mode, m, label):
@@ -864,7 +914,9 @@ def obligations(tier):
            make_kernel("rwm", 1, "periodic", H), make_kernel("rwm", 1, "reflective", 1), make_kernel("tpcn", 1, "periodic", 1),
            make_propose_only(1501), make_modestats(1), make_modestats(2), make_kernel("tpcn", 2, "interior", 1),
            make_composition("tpcn", 1, 0), make_composition("rwm", 2, 1), make_composition("tpcn", 2, 0),
-           make_kernel("tpcn", 1, "interior", H, K=2, mode=1), make_acceptance_range()]
+           make_kernel("tpcn", 1, "interior", H, K=2, mode=1), make_acceptance_range(),
+           # reports a known finding: with a correlated scale matrix the fold of a reflective coordinate breaks proposal symmetry
+           make_kernel("rwm", 2, "reflective", 1)]
     if tier == "thorough":
         # (tpCN on a reflective coordinate is not enumerated: the parity forks exhaust the budget; its known finding is the
         #  same defect as on periodic coordinates, which the quick tier reports)
